@@ -198,6 +198,45 @@ func runC08(c *ctx) {
 			dfs(root, 0)
 		}
 	}
+	// 1b. Pass (the search's null move, accepted by Position.Move): the position after a pass is the same board with the
+	// other side to move - it must equal, and hash like, that board imported from its squares, differ from its parent, and
+	// hashes of positions derived from it (pass, pass; pass, move) must again be the from-scratch values
+	for g := 0; g < 40*c.scale; g++ {
+		size := 3 + g%6
+		ps, _ := randomGame(r, randCfg(r, size), 4+r.Intn(60), -1, r.Intn(6) == 0)
+		bufs := []*tak.Position{tak.Alloc(size), tak.Alloc(size)}
+		for k, p := range ps {
+			if k%3 != g%3 {
+				continue
+			}
+			var buf *tak.Position
+			if r.Intn(2) == 0 {
+				buf = bufs[r.Intn(2)]
+				if buf == p {
+					buf = nil
+				}
+			}
+			p.Hash() // whatever is remembered about the parent's hash is remembered now
+			q, err := p.MovePreallocated(tak.Move{Type: tak.Pass}, buf)
+			if err != nil {
+				c.printf("ORACLE-FAIL pass-rejected | %s | %v | Position.Move accepts the null move\n", enc(p), err)
+				continue
+			}
+			emitSingle(c, q, "pass")
+			emitPair(c, q, p, "pass-vs-parent")
+			if q2, err := q.Move(tak.Move{Type: tak.Pass}); err == nil {
+				emitSingle(c, q2, "pass-pass")
+				emitPair(c, q2, p, "pass-pass-vs-parent")
+			}
+			if over, _ := q.GameOver(); !over {
+				if lm := legalMoves(q); len(lm) > 0 {
+					if q3, err := q.Move(lm[r.Intn(len(lm))]); err == nil {
+						emitSingle(c, q3, "pass-move")
+					}
+				}
+			}
+		}
+	}
 	// 2. transpositions: commuting placements in two orders
 	for g := 0; g < 150*c.scale; g++ {
 		size := 3 + g%6
